@@ -9,13 +9,9 @@ import (
 	"errors"
 	"fmt"
 	"io"
-	"net"
 	"reflect"
 	"strings"
-	"time"
 
-	"storj.io/drpc"
-	"storj.io/drpc/drpcserver"
 
 	"storj.io/drpc/drpcerr"
 	"storj.io/drpc/drpcmetadata"
@@ -367,150 +363,73 @@ func streamFamily(maxLen int) seq.Family {
 
 // ---- unknown control packets inside a real RPC ----
 
-type echoHandler struct{}
+// ---- packets at the released reader's size limit ----
 
-func (echoHandler) HandleRPC(stream drpc.Stream, rpc string) error {
-	var in []byte
-	if err := stream.MsgRecv(&in, enc.Bytes{}); err != nil {
-		return err
+// limitCase writes one packet of total bytes in frames of n bytes with one version's writer and
+// reads it with both readers: they must agree on accepting it and on its content (the released
+// reader accepts a packet of up to 4 MiB).
+func limitCase(total, n int, oldWriter bool) string {
+	data := make([]byte, total)
+	for i := range data {
+		data[i] = byte(i * 31)
 	}
-	out := append([]byte("re:"), in...)
-	return stream.MsgSend(&out, enc.Bytes{})
-}
-
-// controlInRPC writes, by hand, the packets of unary RPCs (with or without metadata) to a real
-// drpcserver over net.Pipe, with one unknown-kind control packet inserted at position pos, and
-// expects the same replies as without it.
-func controlInRPC(withMeta bool, pos int, kind uint8, ctlSID int) string {
-	c, s := net.Pipe()
-	defer c.Close()
-	ctx, cancel := context.WithCancel(context.Background())
-	defer cancel()
-	go func() { _ = drpcserver.New(echoHandler{}).ServeOne(ctx, s) }()
-	w := drpcwire.NewWriter(c, 0)
-	type pk struct {
-		kind uint8
-		sid  uint64
-		data []byte
-		ctl  bool
-	}
-	var seqn []pk
-	for rpc := uint64(1); rpc <= 2; rpc++ {
-		if withMeta {
-			md, _ := drpcmetadata.Encode(nil, map[string]string{"k": "v"})
-			seqn = append(seqn, pk{7, rpc, md, false})
+	var buf bytes.Buffer
+	if oldWriter {
+		w := oldwire.NewWriter(&buf, 1<<16)
+		if err := oldwire.SplitN(context.Background(), oldwire.Packet{Data: data, ID: oldwire.ID{Stream: 1, Message: 1}, Kind: oldwire.KindMessage}, n, w.WriteFrame); err != nil {
+			return fmt.Sprintf("v0.0.17 writer failed: %v", err)
 		}
-		seqn = append(seqn, pk{1, rpc, []byte("/echo"), false}, pk{2, rpc, []byte{byte('a' + rpc)}, false}, pk{6, rpc, nil, false})
-	}
-	if pos > len(seqn) {
-		return ""
-	}
-	sid := uint64(1)
-	if pos < len(seqn) {
-		sid = seqn[pos].sid
+		_ = w.Flush(context.Background())
 	} else {
-		sid = 2
-	}
-	if ctlSID == 1 && pos > 0 {
-		sid = seqn[pos-1].sid // attach it to the stream that is ending rather than the one that starts
-	}
-	ins := append(append(append([]pk{}, seqn[:pos]...), pk{kind, sid, []byte("future-extension"), true}), seqn[pos:]...)
-	done := make(chan string, 1)
-	go func() {
-		mid := map[uint64]uint64{}
-		for _, p := range ins {
-			mid[p.sid]++
-			if err := w.WritePacket(drpcwire.Packet{Data: p.data, ID: drpcwire.ID{Stream: p.sid, Message: mid[p.sid]}, Kind: drpcwire.Kind(p.kind), Control: p.ctl}); err != nil {
-				done <- "write failed: " + err.Error()
-				return
-			}
-			if err := w.Flush(); err != nil {
-				done <- "flush failed: " + err.Error()
-				return
-			}
+		w := drpcwire.NewWriter(&buf, 1<<16)
+		if err := drpcwire.SplitN(drpcwire.Packet{Data: data, ID: drpcwire.ID{Stream: 1, Message: 1}, Kind: drpcwire.KindMessage}, n, w.WriteFrame); err != nil {
+			return fmt.Sprintf("current writer failed: %v", err)
 		}
-		done <- ""
-	}()
-	rd := drpcwire.NewReader(c)
-	replies := 0
-	res := make(chan string, 1)
-	go func() {
-		for replies < 2 {
-			p, err := rd.ReadPacket()
-			if err != nil {
-				res <- fmt.Sprintf("connection failed after %d replies: %v", replies, err)
-				return
-			}
-			if p.Kind == drpcwire.KindMessage {
-				want := "re:" + string([]byte{byte('a' + p.ID.Stream)})
-				if string(p.Data) != want {
-					res <- fmt.Sprintf("reply %q on stream %d, want %q", p.Data, p.ID.Stream, want)
-					return
-				}
-				replies++
-			}
-			if p.Kind == drpcwire.KindError {
-				res <- fmt.Sprintf("server answered with an error on stream %d: %s", p.ID.Stream, p.Data[min(8, len(p.Data)):])
-				return
-			}
-		}
-		res <- ""
-	}()
-	select {
-	case m := <-res:
-		if m != "" {
-			return m
-		}
-	case <-time.After(10 * time.Second):
-		return fmt.Sprintf("the connection wedged: only %d of 2 RPCs were answered within 10s", replies)
+		_ = w.Flush()
 	}
-	select {
-	case m := <-done:
-		return m
-	case <-time.After(10 * time.Second):
-		return "the writer is still blocked: the server stopped reading"
+	op, oerr := oldwire.NewReader(bytes.NewReader(buf.Bytes())).ReadPacket()
+	np, nerr := drpcwire.NewReader(bytes.NewReader(buf.Bytes())).ReadPacket()
+	switch {
+	case (oerr == nil) != (nerr == nil):
+		return fmt.Sprintf("a %d-byte packet in %d-byte frames: the v0.0.17 reader says err=%v, the current reader says err=%v", total, n, oerr, nerr)
+	case oerr == nil && (!bytes.Equal(op.Data, data) || !bytes.Equal(np.Data, data)):
+		return fmt.Sprintf("a %d-byte packet in %d-byte frames is decoded with different content (old %d bytes, new %d bytes)", total, n, len(op.Data), len(np.Data))
+	case (oerr == nil) != (total <= 4<<20):
+		return fmt.Sprintf("reference self-check: v0.0.17 accepted=%v a %d-byte packet", oerr == nil, total)
 	}
+	return ""
 }
 
-func controlFamily() seq.Family {
+func limitFamily() seq.Family {
+	type c struct {
+		Total, N  int
+		OldWriter bool
+	}
 	return seq.Family{
-		Name: "unknown-control-packet-inside-rpc",
+		Name: "packets-at-the-size-limit",
 		Run: func(ctx *seq.Ctx) {
-			type c struct {
-				Meta         bool
-				Pos          int
-				Kind         uint8
-				AttachToPrev int
-			}
 			var cases []c
-			for _, meta := range []bool{false, true} {
-				for pos := 0; pos <= 8; pos++ {
-					for _, kind := range []uint8{0, 8, 63} {
-						for _, a := range []int{0, 1} {
-							cases = append(cases, c{meta, pos, kind, a})
-						}
+			for _, total := range []int{4<<20 - 1, 4 << 20, 4<<20 + 1, 1<<20 + 1, 1 << 20} {
+				for _, n := range []int{1024, 65536, 1<<20 - 64} {
+					for _, ow := range []bool{true, false} {
+						cases = append(cases, c{total, n, ow})
 					}
 				}
 			}
 			seq.Parallel(len(cases), func(i int) {
 				x := cases[i]
-				ctx.Count(1, 8, 1)
-				if m := controlInRPC(x.Meta, x.Pos, x.Kind, x.AttachToPrev); m != "" {
-					ctx.Fail(fmt.Sprintf("%s (metadata=%v, control packet of kind %d inserted at position %d, attached-to-previous=%d)", m, x.Meta, x.Kind, x.Pos, x.AttachToPrev), x)
+				ctx.Count(1, 3, 1)
+				if m := limitCase(x.Total, x.N, x.OldWriter); m != "" {
+					ctx.Fail(m, x)
 				}
 			})
-			ctx.Class("undisturbed")
-			ctx.Sample(c{true, 1, 63, 0})
+			ctx.Class("agree")
+			ctx.Sample(c{4 << 20, 65536, true})
 		},
 		Replay: func(in json.RawMessage) string {
-			var x struct {
-				Meta         bool
-				Pos          int
-				Kind         uint8
-				AttachToPrev int
-			}
+			var x c
 			_ = json.Unmarshal(in, &x)
-			return controlInRPC(x.Meta, x.Pos, x.Kind, x.AttachToPrev)
+			return limitCase(x.Total, x.N, x.OldWriter)
 		},
 	}
 }
@@ -584,7 +503,7 @@ func families(tier string) []seq.Family {
 		return []seq.Family{
 			pktFamily("current-writer->v0.0.17-reader<=3", false, 3, newToOld),
 			pktFamily("v0.0.17-writer->current-reader<=3", false, 3, oldToNew),
-			streamFamily(4), metaFamily(2), controlFamily(),
+			streamFamily(4), metaFamily(2), limitFamily(),
 		}
 	}
 	return []seq.Family{
@@ -592,7 +511,7 @@ func families(tier string) []seq.Family {
 		pktFamily("current-writer->v0.0.17-reader<=4", false, 4, newToOld),
 		pktFamily("v0.0.17-writer->current-reader<=3/rich", true, 3, oldToNew),
 		pktFamily("v0.0.17-writer->current-reader<=4", false, 4, oldToNew),
-		streamFamily(5), metaFamily(3), controlFamily(),
+		streamFamily(5), metaFamily(3), limitFamily(),
 	}
 }
 
